@@ -68,38 +68,65 @@ def pairUp : List BValue → Option (List (Bytes × BValue))
   | .str k :: v :: rest => (pairUp rest).map ((k, v) :: ·)
   | _ :: _ :: _ => none
 
+/-- Why decoding failed: the input ended inside a list or dictionary (only the strict grammar reports this),
+    any other `Err(_)` of the Rust decoder, or the model's fuel ran out (never, see `fuel_sufficient`). -/
+inductive DErr where
+  | eofInContainer
+  | other
+  | fuel
+  deriving Repr, DecidableEq, Inhabited
+
+abbrev DRes := Except DErr (List BValue × Bytes)
+
+def consV (v : BValue) : DRes → DRes
+  | .ok r => .ok (v :: r.1, r.2)
+  | .error e => .error e
+
 /-- `values_vector(it, with_end)`; `parse_list`, `parse_dict` inlined. -/
-def values (eofCloses : Bool) : Nat → Bytes → Bool → Option (List BValue × Bytes)
-  | 0, _, _ => none
-  | _ + 1, [], withEnd => if withEnd && !eofCloses then none else some ([], [])
+def values (eofCloses : Bool) : Nat → Bytes → Bool → DRes
+  | 0, _, _ => .error .fuel
+  | _ + 1, [], withEnd => if withEnd && !eofCloses then .error .eofInContainer else .ok ([], [])
   | fuel + 1, b :: rest, withEnd =>
     if isDigit b then
       match parseByteStr b rest with
-      | some (s, rest') => (values eofCloses fuel rest' withEnd).map fun r => (.str s :: r.1, r.2)
-      | none => none
+      | some (s, rest') => consV (.str s) (values eofCloses fuel rest' withEnd)
+      | none => .error .other
     else if b = cI then
       match parseInt rest with
-      | some (i, rest') => (values eofCloses fuel rest' withEnd).map fun r => (.int i :: r.1, r.2)
-      | none => none
+      | some (i, rest') => consV (.int i) (values eofCloses fuel rest' withEnd)
+      | none => .error .other
     else if b = cL then
       match values eofCloses fuel rest true with
-      | some (items, rest') => (values eofCloses fuel rest' withEnd).map fun r => (.list items :: r.1, r.2)
-      | none => none
+      | .ok (items, rest') => consV (.list items) (values eofCloses fuel rest' withEnd)
+      | .error e => .error e
     else if b = cD then
       match values eofCloses fuel rest true with
-      | some (items, rest') =>
+      | .ok (items, rest') =>
         match pairUp items with
-        | some kvs => (values eofCloses fuel rest' withEnd).map fun r => (.dict (mkDict kvs) :: r.1, r.2)
-        | none => none
-      | none => none
+        | some kvs => consV (.dict (mkDict kvs)) (values eofCloses fuel rest' withEnd)
+        | none => .error .other
+      | .error e => .error e
     else if b = cE then
-      if withEnd then some ([], rest) else none
-    else none
+      if withEnd then .ok ([], rest) else .error .other
+    else .error .other
+
+def toOpt : DRes → Option (List BValue)
+  | .ok r => some r.1
+  | .error _ => none
 
 /-- `BDecoder::from_array`. -/
-def decodeImpl (inp : Bytes) : Option (List BValue) := (values true (inp.length + 1) inp false).map (·.1)
+def decodeImpl (inp : Bytes) : Option (List BValue) := toOpt (values true (inp.length + 1) inp false)
 
 /-- The strict grammar: the same, but a list or dictionary must be terminated by `e`. -/
-def decodeStrict (inp : Bytes) : Option (List BValue) := (values false (inp.length + 1) inp false).map (·.1)
+def decodeStrictE (inp : Bytes) : DRes := values false (inp.length + 1) inp false
+
+def decodeStrict (inp : Bytes) : Option (List BValue) := toOpt (decodeStrictE inp)
+
+/-- The class of the recorded finding F1: the only reason the strict grammar rejects the input is that it ends
+    inside a list or dictionary. -/
+def EofInsideContainer (inp : Bytes) : Bool :=
+  match decodeStrictE inp with
+  | .error .eofInContainer => true
+  | _ => false
 
 end Rdest.Bencode
